@@ -108,7 +108,7 @@ func EngineUnits(prop string, t Tier, seed uint64) ([]engine.Unit, error) {
 	case "C01":
 		cfg := base(prop, engine.MMap, t)
 		cfg.Histories = 80 * t.F
-		cfg.CheckEvery = []int{1000}
+		cfg.CheckEvery = []int{1, 4, 16}
 		us := allKindUnits(cfg, seed, fewColl, 6*t.F)
 		if t.F > 1 {
 			lc := *cfg
